@@ -96,9 +96,11 @@ class MemoryStore(object):
         return value
 
     def set(self, key, value):
+        # the typed write goes first: a value that the array rejects
+        # (TypeError, OverflowError) must leave the slot as it was.
+        self.values[key[0]] = value
         self.keys[key[0]] = key
         self.state[key[0]] = rs.state.markers.STATE_SET.value()
-        self.values[key[0]] = value
 
     def is_set(self, key):
         if self.state[key[0]] == rs.state.markers.STATE_SET.value():
